@@ -280,6 +280,26 @@ class CFG:
                 work.append(s)
         return False
 
+    def reaches(self, src, dst, src_labels=None, removed_edges=(), skip_exc=True):
+        """dst reachable from src (leaving src through src_labels only, if given) when the edges (node, label) in removed_edges are cut."""
+        removed = {(n.id, lab) for n, lab in removed_edges}
+        seen, work = set(), []
+        for s_, lab in src.succ:
+            if (src_labels is None or lab in src_labels) and (src.id, lab) not in removed and not (skip_exc and lab == "exc"):
+                work.append(s_)
+        while work:
+            n = work.pop()
+            if n is dst:
+                return True
+            if n.id in seen:
+                continue
+            seen.add(n.id)
+            for s_, lab in n.succ:
+                if (n.id, lab) in removed or (skip_exc and lab == "exc"):
+                    continue
+                work.append(s_)
+        return False
+
     def edge_dominated_by_branch(self, target, test_node, label):
         """True iff every path entry->target passes through edge (test_node --label-->)."""
         # remove that edge; if target still reachable, not dominated
